@@ -114,6 +114,16 @@ pub enum Op {
     Sleep { warm: bool },
     Init,
     Standby,
+    /// prepare_for_rx + a reception that completes with the raw packet-status bytes `raw` (SX126x: RssiPkt, SnrPkt,
+    /// SignalRssiPkt; SX127x: RegPktRssiValue, RegPktSnrValue, -) in the chip: via 0 = rx(), 1 = start_rx + get_rx_result.
+    /// The reported PacketStatus is the observation.
+    RxStat { m: Mod, p: Pkt, mode: Mode, raw: [u8; 3], via: u8 },
+    /// a reception completes NOW on whatever receive operation the history left running (nothing is prepared or
+    /// started): the chip raises RxDone with `raw` as packet status; via 0 = complete_rx, 1 = get_rx_result.
+    /// `m` only says which reception the caller believes is running (packet parameters are created against it).
+    Complete { m: Mod, p: Pkt, raw: [u8; 3], via: u8 },
+    /// get_rssi() on whatever the history left running, with `raw` as the chip's instantaneous RSSI value
+    Rssi { m: Mod, raw: u8 },
     // ---- RadioKind level
     KChannel { freq: u32 },
     KMod { m: Mod },
@@ -128,11 +138,17 @@ pub enum Op {
     KDoCad { m: Mod },
     /// set_packet_params(p) followed by get_rx_payload(p, buffer) with the chip reporting (len, off)
     KFetch { p: Pkt, len: u8, off: u8, buf: u16 },
+    /// get_rx_packet_status() with `raw` in the chip (`m` is context only: the band the caller works in)
+    KStatus { m: Mod, raw: [u8; 3] },
+    /// get_rssi() with `raw` in the chip
+    KRssi { m: Mod, raw: u8 },
     // ---- LoRaWAN adapter level
     LwTx { m: Mod, power: i8, len: u8 },
     LwRx { m: Mod, ms: Option<u32>, end: RxEnd, buf: u16 },
     /// setup_rx(Continuous) once, then rx_continuous twice (reports `first`, then `second`, the observed one)
     LwRx2 { m: Mod, first: (u8, u8), second: (u8, u8), buf: u16 },
+    /// setup_rx + rx_single (ms) / rx_continuous (None) completing with `raw` as packet status: the RxQuality is the observation
+    LwRxStat { m: Mod, ms: Option<u32>, raw: [u8; 3] },
     LwLowPower,
 }
 
@@ -212,6 +228,12 @@ pub fn op_name(o: &Op) -> &'static str {
         Op::Rx { .. } => "prepare_for_rx+rx",
         Op::Rx2 { .. } => "prepare_for_rx+start_rx+2*complete_rx",
         Op::LwRx2 { .. } => "lorawan-setup_rx+2*rx_continuous",
+        Op::RxStat { .. } => "prepare_for_rx+rx:packet-status",
+        Op::Complete { .. } => "reception-completes-now:packet-status",
+        Op::Rssi { .. } => "get_rssi",
+        Op::KStatus { .. } => "get_rx_packet_status",
+        Op::KRssi { .. } => "kind-get_rssi",
+        Op::LwRxStat { .. } => "lorawan-setup_rx+rx:quality",
         Op::Listen { .. } => "listen",
         Op::Cad { .. } => "prepare_for_cad+cad",
         Op::Cw { .. } => "continuous_wave",
@@ -243,6 +265,11 @@ pub fn op_json(o: &Op) -> Value {
         Op::Rx { m, p, mode, end, buf } => json!({"mod":mod_json(m),"pkt":pkt_json(p),"mode":mode_json(mode),"end":end_json(end),"buffer_size":buf}),
         Op::Rx2 { m, p, first, second, buf, refetch } => json!({"mod":mod_json(m),"pkt":pkt_json(p),"first_report":[first.0, first.1],"second_report":[second.0, second.1],"buffer_size":buf,"fetch_again":refetch}),
         Op::LwRx2 { m, first, second, buf } => json!({"mod":mod_json(m),"first_report":[first.0, first.1],"second_report":[second.0, second.1],"buffer_size":buf}),
+        Op::RxStat { m, p, mode, raw, via } => json!({"mod":mod_json(m),"pkt":pkt_json(p),"mode":mode_json(mode),"raw_status":raw,"via":via}),
+        Op::Complete { m, p, raw, via } => json!({"mod":mod_json(m),"pkt":pkt_json(p),"raw_status":raw,"via":via}),
+        Op::Rssi { m, raw } | Op::KRssi { m, raw } => json!({"mod":mod_json(m),"raw_rssi":raw}),
+        Op::KStatus { m, raw } => json!({"mod":mod_json(m),"raw_status":raw}),
+        Op::LwRxStat { m, ms, raw } => json!({"mod":mod_json(m),"single_ms":ms,"raw_status":raw}),
         Op::Listen { freq, bw } => json!({"freq_hz":freq,"bw_hz":BW_ROUNDED_HZ[*bw]}),
         Op::Cad { m } | Op::KMod { m } | Op::KDoCad { m } => json!({"mod":mod_json(m)}),
         Op::Cw { m, power } => json!({"mod":mod_json(m),"power_dbm":power}),
@@ -265,11 +292,18 @@ pub fn op_from(v: &Value) -> Option<Op> {
     let p = || pkt_from(&v["pkt"]);
     let buf = || v["buffer_size"].as_u64().map(|b| b.min(256) as u16);
     let pair = |x: &Value| -> Option<(u8, u8)> { Some((x[0].as_u64()? as u8, x[1].as_u64()? as u8)) };
+    let raw3 = |x: &Value| -> Option<[u8; 3]> { Some([x[0].as_u64()? as u8, x[1].as_u64()? as u8, x[2].as_u64()? as u8]) };
     Some(match v["op"].as_str()? {
         "prepare_for_tx+tx" => Op::Tx { m: m()?, power: v["power_dbm"].as_i64()? as i32, len: v["payload_len"].as_u64()? as u8 },
         "prepare_for_rx+rx" => Op::Rx { m: m()?, p: p()?, mode: mode_from(&v["mode"])?, end: end_from(&v["end"])?, buf: buf()? },
         "prepare_for_rx+start_rx+2*complete_rx" => Op::Rx2 { m: m()?, p: p()?, first: pair(&v["first_report"])?, second: pair(&v["second_report"])?, buf: buf()?, refetch: v["fetch_again"].as_bool().unwrap_or(false) },
         "lorawan-setup_rx+2*rx_continuous" => Op::LwRx2 { m: m()?, first: pair(&v["first_report"])?, second: pair(&v["second_report"])?, buf: buf()? },
+        "prepare_for_rx+rx:packet-status" => Op::RxStat { m: m()?, p: p()?, mode: mode_from(&v["mode"])?, raw: raw3(&v["raw_status"])?, via: v["via"].as_u64().unwrap_or(0) as u8 },
+        "reception-completes-now:packet-status" => Op::Complete { m: m()?, p: p()?, raw: raw3(&v["raw_status"])?, via: v["via"].as_u64().unwrap_or(0) as u8 },
+        "get_rssi" => Op::Rssi { m: m()?, raw: v["raw_rssi"].as_u64()? as u8 },
+        "get_rx_packet_status" => Op::KStatus { m: m()?, raw: raw3(&v["raw_status"])? },
+        "kind-get_rssi" => Op::KRssi { m: m()?, raw: v["raw_rssi"].as_u64()? as u8 },
+        "lorawan-setup_rx+rx:quality" => Op::LwRxStat { m: m()?, ms: v["single_ms"].as_u64().map(|x| x as u32), raw: raw3(&v["raw_status"])? },
         "listen" => Op::Listen { freq: v["freq_hz"].as_u64()? as u32, bw: BW_ROUNDED_HZ.iter().position(|s| Some(*s as u64) == v["bw_hz"].as_u64())? },
         "prepare_for_cad+cad" => Op::Cad { m: m()? },
         "continuous_wave" => Op::Cw { m: m()?, power: v["power_dbm"].as_i64()? as i32 },
@@ -332,6 +366,11 @@ pub trait ChipCtl {
     fn arm_rx(&self, end: RxEnd);
     /// the receiver is already running (continuous mode): the chip reports another reception now
     fn raise_rx(&self, end: RxEnd);
+    /// raw packet-status bytes the chip answers with (SX126x GetPacketStatus RssiPkt, SnrPkt, SignalRssiPkt; SX127x
+    /// RegPktRssiValue, RegPktSnrValue); call after arm_rx / raise_rx, which script benign values
+    fn set_status(&self, raw: [u8; 3]);
+    /// raw instantaneous RSSI (SX126x GetRssiInst, SX127x RegRssiValue)
+    fn set_rssi_inst(&self, raw: u8);
     fn power_ons(&self) -> u32;
     fn anomalies(&self) -> Vec<String>;
 }
@@ -375,6 +414,12 @@ impl ChipCtl for Ctl126 {
         let mut c = self.0.borrow_mut();
         let f = c.irq_on_rx;
         c.irq |= f;
+    }
+    fn set_status(&self, raw: [u8; 3]) {
+        self.0.borrow_mut().pkt_status = raw;
+    }
+    fn set_rssi_inst(&self, raw: u8) {
+        self.0.borrow_mut().rssi_inst = raw;
     }
     fn power_ons(&self) -> u32 {
         self.0.borrow().power_ons
@@ -424,6 +469,14 @@ impl ChipCtl for Ctl127 {
         let f = c.irq_on_rx;
         c.regs[crate::drive::chip127x::REG_IRQ_FLAGS as usize] |= f;
     }
+    fn set_status(&self, raw: [u8; 3]) {
+        let mut c = self.0.borrow_mut();
+        c.regs[crate::drive::chip127x::REG_PKT_RSSI_VALUE as usize] = raw[0];
+        c.regs[crate::drive::chip127x::REG_PKT_SNR_VALUE as usize] = raw[1];
+    }
+    fn set_rssi_inst(&self, raw: u8) {
+        self.0.borrow_mut().regs[crate::drive::chip127x::REG_RSSI_VALUE as usize] = raw;
+    }
     fn power_ons(&self) -> u32 {
         self.0.borrow().power_ons
     }
@@ -463,6 +516,8 @@ impl ChipCtl for CtlLr {
         let f = c.irq_on_rx;
         c.irq |= f;
     }
+    fn set_status(&self, _raw: [u8; 3]) {}
+    fn set_rssi_inst(&self, _raw: u8) {}
     fn power_ons(&self) -> u32 {
         self.0.borrow().power_ons
     }
@@ -489,6 +544,10 @@ pub struct StepObs {
     pub fetch: Option<FetchObs>,
     /// the same reception fetched once more (get_rx_result), where the operation asks for it
     pub fetch2: Option<FetchObs>,
+    /// (rssi dBm, snr dB) of the PacketStatus / RxQuality the operation reported
+    pub status: Option<(i64, i64)>,
+    /// instantaneous RSSI (dBm) the operation reported
+    pub rssi_inst: Option<i64>,
 }
 
 #[derive(Debug, Clone)]
@@ -544,6 +603,8 @@ struct Scratch {
     decision: Option<u8>,
     fetch: Option<FetchObs>,
     fetch2: Option<FetchObs>,
+    status: Option<(i64, i64)>,
+    rssi_inst: Option<i64>,
 }
 
 /// Debug text of the error an operation returned
@@ -620,6 +681,17 @@ fn exec_kind<RK: RadioKind>(radio: &mut RK, ctl: &dyn ChipCtl, op: &Op, sc: &mut
             };
             sc.fetch = Some(f);
             return out;
+        }
+        Op::KStatus { raw, .. } => {
+            ctl.set_status(*raw);
+            let ps = block_on(radio.get_rx_packet_status())?;
+            sc.status = Some((ps.rssi as i64, ps.snr as i64));
+            Ok(())
+        }
+        Op::KRssi { raw, .. } => {
+            ctl.set_rssi_inst(*raw);
+            sc.rssi_inst = Some(block_on(radio.get_rssi())? as i64);
+            Ok(())
         }
         _ => panic!("HARNESS-BUG: {} is not a RadioKind-level operation", op_name(op)),
     })
@@ -698,6 +770,37 @@ fn exec_lora<RK: RadioKind>(lora: &mut LoRa<RK, Delay>, ctl: &dyn ChipCtl, op: &
         Op::Sleep { warm } => block_on(lora.sleep(*warm)),
         Op::Init => block_on(lora.init()),
         Op::Standby => block_on(lora.enter_standby()),
+        Op::RxStat { m, p, mode, raw, via } => {
+            let mp = mk(lora, m)?;
+            let pp = lora.create_rx_packet_params(p.pre, p.implicit, p.len, p.crc, p.iq, &mp)?;
+            block_on(lora.prepare_for_rx(rx_mode(*mode), &mp, &pp))?;
+            ctl.arm_rx(RxEnd::Done { len: if p.implicit { p.len } else { 13 }, off: 0 });
+            ctl.set_status(*raw);
+            let mut store = [CANARY; 256];
+            let (_, ps) = if *via == 0 {
+                block_on(lora.rx(&pp, &mut store))?
+            } else {
+                block_on(lora.start_rx())?;
+                block_on(lora.get_rx_result(&pp, &mut store))?
+            };
+            sc.status = Some((ps.rssi as i64, ps.snr as i64));
+            Ok(())
+        }
+        Op::Complete { m, p, raw, via } => {
+            let mp = mk(lora, m)?;
+            let pp = lora.create_rx_packet_params(p.pre, p.implicit, p.len, p.crc, p.iq, &mp)?;
+            ctl.raise_rx(RxEnd::Done { len: if p.implicit { p.len } else { 13 }, off: 0 });
+            ctl.set_status(*raw);
+            let mut store = [CANARY; 256];
+            let (_, ps) = if *via == 0 { block_on(lora.complete_rx(&pp, &mut store))? } else { block_on(lora.get_rx_result(&pp, &mut store))? };
+            sc.status = Some((ps.rssi as i64, ps.snr as i64));
+            Ok(())
+        }
+        Op::Rssi { raw, .. } => {
+            ctl.set_rssi_inst(*raw);
+            sc.rssi_inst = Some(block_on(lora.get_rssi())? as i64);
+            Ok(())
+        }
         _ => panic!("HARNESS-BUG: {} is not a LoRa-level operation", op_name(op)),
     })
 }
@@ -751,6 +854,26 @@ fn exec_lw<RK: RadioKind>(lw: &mut LorawanRadio<RK, Delay, 22>, ctl: &dyn ChipCt
             sc.fetch = Some(FetchObs { result: res, no_packet: false, size, store: store.to_vec() });
             out
         }
+        Op::LwRxStat { m, ms, raw } => {
+            let mode = match ms {
+                Some(ms) => LwRxMode::Single { ms: *ms },
+                None => LwRxMode::Continuous,
+            };
+            block_on(lw.setup_rx(RxConfig { rf: rf(m), mode })).map_err(|e| format!("{e:?}"))?;
+            ctl.arm_rx(RxEnd::Done { len: 13, off: 0 });
+            ctl.set_status(*raw);
+            let mut store = [CANARY; 256];
+            let q = if ms.is_some() {
+                match block_on(lw.rx_single(&mut store)).map_err(|e| format!("{e:?}"))? {
+                    RxStatus::Rx(_, q) => q,
+                    RxStatus::RxTimeout => return Err("RxTimeout although RxDone was raised".into()),
+                }
+            } else {
+                block_on(lw.rx_continuous(&mut store)).map_err(|e| format!("{e:?}"))?.1
+            };
+            sc.status = Some((q.rssi() as i64, q.snr() as i64));
+            Ok(())
+        }
         Op::LwLowPower => block_on(lw.low_power()).map_err(|e| format!("{e:?}")),
         _ => panic!("HARNESS-BUG: {} is not a LoRaWAN-adapter-level operation", op_name(op)),
     }
@@ -777,11 +900,11 @@ fn run_on<RK: RadioKind>(radio: RK, iv: Iv, ctl: Rc<dyn ChipCtl>, h: &Hist) -> O
                 if last {
                     ctl.clear_air();
                 }
-                let mut sc = Scratch { decision: None, fetch: None, fetch2: None };
+                let mut sc = Scratch { decision: None, fetch: None, fetch2: None, status: None, rssi_inst: None };
                 let r: Result<(), String> = $exec(op, &mut sc);
                 if last {
                     let (air, airs) = ctl.air();
-                    out.last = StepObs { err: r.err(), air, airs, held: ctl.held(), decision: sc.decision, fetch: sc.fetch, fetch2: sc.fetch2 };
+                    out.last = StepObs { err: r.err(), air, airs, held: ctl.held(), decision: sc.decision, fetch: sc.fetch, fetch2: sc.fetch2, status: sc.status, rssi_inst: sc.rssi_inst };
                 } else {
                     out.prefix_errs.push(r.err());
                 }
@@ -885,7 +1008,8 @@ pub fn context(j: &Op) -> (Mod, Pkt, i32) {
     let dp = Pkt::new(false, 255);
     match j {
         Op::Tx { m, power, .. } | Op::Cw { m, power } => (*m, dp, *power),
-        Op::Rx { m, p, .. } | Op::Rx2 { m, p, .. } => (*m, *p, 14),
+        Op::Rx { m, p, .. } | Op::Rx2 { m, p, .. } | Op::RxStat { m, p, .. } | Op::Complete { m, p, .. } => (*m, *p, 14),
+        Op::Rssi { m, .. } | Op::KStatus { m, .. } | Op::KRssi { m, .. } | Op::LwRxStat { m, .. } => (*m, dp, 14),
         Op::Listen { freq, bw } => (Mod { sf: 2, bw: *bw, cr: 0, freq: *freq }, dp, 14),
         Op::Cad { m } | Op::KMod { m } | Op::KDoCad { m } => (*m, dp, 14),
         Op::Switch { freq } | Op::KChannel { freq } => (Mod { freq: *freq, ..dm }, dp, 14),
@@ -906,6 +1030,11 @@ fn ldro_on(sf: usize, bw: usize) -> bool {
 pub fn other_mod(m: &Mod) -> Mod {
     let (sf, bw) = if ldro_on(m.sf, m.bw) { (2, 7) } else { (7, 7) };
     Mod { sf, bw, cr: (m.cr + 1) % 4, freq: if m.freq % 400_000 == 0 { m.freq + 200_000 } else { m.freq - m.freq % 400_000 + 400_000 } }
+}
+/// the same settings in the OTHER frequency band (the SX1276 has separate LF / HF ports with their own RSSI offset,
+/// image calibration is per band): 433.175 MHz for a request above 600 MHz, 868.1 MHz otherwise
+pub fn cross_band(m: &Mod) -> Mod {
+    Mod { freq: if m.freq > 600_000_000 { 433_175_000 } else { 868_100_000 }, ..*m }
 }
 /// a third setting: same frequency as `m`, SF9 / 125 kHz (or SF10 if `m` is that)
 pub fn third_mod(m: &Mod) -> Mod {
@@ -932,6 +1061,31 @@ pub fn other_power(p: i32) -> i32 {
 /// values, receive operations that complete / time out / are never started, and what makes chip or driver
 /// forget (sleep warm / cold, init or reset).
 pub fn alphabet(level: usize, j: &Op) -> Vec<Op> {
+    alphabet_with(level, j, false)
+}
+
+/// `cross`: also operations in the other frequency band (see `cross_band`)
+pub fn alphabet_with(level: usize, j: &Op, cross: bool) -> Vec<Op> {
+    let mut a = alphabet_base(level, j);
+    if cross {
+        let (m, p, w) = context(j);
+        let x = cross_band(&m);
+        match level {
+            KIND => a.extend([Op::KChannel { freq: x.freq }, Op::KMod { m: x }]),
+            LORA => a.extend([
+                Op::Switch { freq: x.freq },
+                Op::Tx { m: x, power: w, len: 13 },
+                Op::Rx { m: x, p, mode: Mode::Continuous, end: RxEnd::None, buf: 256 },
+                Op::Listen { freq: x.freq, bw: x.bw },
+                Op::Cad { m: x },
+            ]),
+            _ => a.extend([Op::LwTx { m: x, power: w as i8, len: 13 }, Op::LwRx { m: x, ms: None, end: RxEnd::Done { len: 13, off: 0 }, buf: 256 }]),
+        }
+    }
+    a
+}
+
+fn alphabet_base(level: usize, j: &Op) -> Vec<Op> {
     let (m, p, w) = context(j);
     let m2 = other_mod(&m);
     let (pa, pb) = other_pkts(&p);
@@ -991,7 +1145,11 @@ pub fn alphabet(level: usize, j: &Op) -> Vec<Op> {
 
 /// every prefix of depth 0..=`depth` over the alphabet of `j`
 pub fn prefixes(level: usize, j: &Op, depth: usize) -> Vec<Vec<Op>> {
-    let a = alphabet(level, j);
+    prefixes_with(level, j, depth, false)
+}
+
+pub fn prefixes_with(level: usize, j: &Op, depth: usize, cross: bool) -> Vec<Vec<Op>> {
+    let a = alphabet_with(level, j, cross);
     let mut out: Vec<Vec<Op>> = vec![vec![]];
     let mut layer: Vec<Vec<Op>> = vec![vec![]];
     for _ in 0..depth {
@@ -1023,15 +1181,21 @@ pub struct AOp {
 
 pub fn resolve(level: usize, chip: usize, j: &Op, a: &AOp) -> Op {
     let (m, p, w) = context(j);
-    let mods = [m, other_mod(&m), third_mod(&m)];
+    // index 3 (the other frequency band) is only drawn by `strategy_cross`
+    let mods = [m, other_mod(&m), third_mod(&m), cross_band(&m)];
     let (pa, pb) = other_pkts(&p);
     let pkts = [p, pa, pb];
     let pows = [w, other_power(w), 22, -9];
-    let mm = mods[a.mi as usize % 3];
+    let mm = mods[a.mi as usize % 4];
     let pp = pkts[a.pi as usize % 3];
     let ww = pows[a.wi as usize % 4];
     let modes = [Mode::Single(20), Mode::Continuous, Mode::Single(5), Mode::DutyCycle];
-    let mode = modes[a.x as usize % 4];
+    // RxMode::DutyCycle is documented as not supported on the SX127x (do_rx refuses it, get_irq_state is `todo!()` for
+    // it): not requested there, like continuous_wave on the SX1272
+    let mode = match modes[a.x as usize % 4] {
+        Mode::DutyCycle if family(chip) == "sx127x" => Mode::Continuous,
+        other => other,
+    };
     let ends = [RxEnd::Done { len: if pp.implicit { pp.len.wrapping_add(5) } else { 13 }, off: 0 }, RxEnd::Timeout, RxEnd::None, RxEnd::Done { len: 200, off: 0xF0 }];
     let end = ends[a.y as usize % 4];
     match level {
@@ -1045,7 +1209,7 @@ pub fn resolve(level: usize, chip: usize, j: &Op, a: &AOp) -> Op {
             6 => Op::KInitLora,
             7 => Op::KStandby,
             8 => Op::KDoTx,
-            9 => Op::KDoRx { mode: if mode == Mode::DutyCycle && family(chip) == "sx127x" { Mode::Continuous } else { mode } },
+            9 => Op::KDoRx { mode },
             10 => Op::KDoCad { m: mm },
             11 => Op::KFetch { p: pp, len: 13, off: a.y, buf: 256 },
             _ => Op::KSleep { warm: false },
@@ -1083,6 +1247,12 @@ pub fn resolve(level: usize, chip: usize, j: &Op, a: &AOp) -> Op {
 
 pub fn aop_strategy() -> impl Strategy<Value = AOp> {
     (0u8..156, 0u8..3, 0u8..3, 0u8..4, 0u8..4, 0u8..4).prop_map(|(kind, mi, pi, wi, x, y)| AOp { kind, mi, pi, wi, x, y })
+}
+
+/// like `strategy`, with operations in the other frequency band among the prefix operations
+pub fn strategy_cross(n_requests: usize, max_len: usize) -> impl Strategy<Value = (usize, Vec<AOp>)> {
+    let aop = (0u8..156, 0u8..4, 0u8..3, 0u8..4, 0u8..4, 0u8..4).prop_map(|(kind, mi, pi, wi, x, y)| AOp { kind, mi, pi, wi, x, y });
+    (0..n_requests, proptest::collection::vec(aop, 1..=max_len))
 }
 
 /// (index of the judged request in the caller's list, abstract prefix of 1..=max_len operations)
